@@ -48,6 +48,8 @@ struct SimAlloc {
   bool always_move = false;  // realloc always moves
   size_t pad = 0;            // extra bytes per allocation (address layout perturbation)
   bool track = true;         // keep the live table
+  size_t max_block = 256u << 20;  // the simulated machine refuses larger single requests (deterministic, not an injected fault)
+  int64_t huge_refused = 0;
   int cur_op = 0;            // operation id stamped on allocations (set by the harness)
   // counters
   int64_t attempts = 0;      // allocation attempts by yara code since reset
